@@ -145,7 +145,14 @@ func (c *compiler) evalExpression(node ast.Expression) (interface{}, error) {
 	case *ast.IndexExpression:
 		return c.evalIndexExpression(s)
 	case *ast.CallExpression:
-		return c.evalCallExpression(s)
+		// a call that succeeds leaves the current statement as it found it: a helper may have
+		// swallowed the failure of a statement in its block, which must not be blamed later
+		stmt := c.curStmt
+		res, err := c.evalCallExpression(s)
+		if err == nil {
+			c.curStmt = stmt
+		}
+		return res, err
 	case *ast.Identifier:
 		return c.evalIdentifier(s)
 	case *ast.Boolean:
